@@ -170,7 +170,10 @@ def gen_dataset(ctx: Ctx, small: list[Any]) -> dict[str, Any]:
         ps, ls = tr
         name = r.choice(names)
         if buffer and kind == "edge":
-            st = T0 + (0 if r.random() < 0.5 else 10 * MIN - 100)
+            # in the leading / trailing buffer, or with its only in-window instant EXACTLY on a window edge: the root's
+            # start on the upper edge (everything else of the trace later), the root's end on the lower edge
+            # (everything else earlier) — the window is [T0 + 1 min, T0 + 9 min], both ends inclusive
+            st = T0 + r.choice([0, 10 * MIN - 100, 9 * MIN, MIN - 50])
         else:
             st = T0 + 5 * MIN + r.randrange(0, 10**6)
         ids = [f"{jid}.{i}" for i in range(len(ps))]
